@@ -89,9 +89,15 @@ class GenericCallAdapter(Adapter):
     def items(cls, value, node):
         new_args, new_kwargs = cls.arguments(value)
 
+        if node is not None and (
+            not isinstance(node, ast.Call)
+            or any(isinstance(arg, ast.Starred) for arg in node.args)
+            or any(kw.arg is None for kw in node.keywords)
+        ):
+            # the arguments can not be mapped to the nodes of the call (star-expressions)
+            node = None
+
         if node is not None:
-            assert isinstance(node, ast.Call)
-            assert all(kw.arg for kw in node.keywords)
             kw_arg_node = {kw.arg: kw.value for kw in node.keywords if kw.arg}.get
 
             def pos_arg_node(pos):
